@@ -17,6 +17,9 @@ WORKER_SETS = [
     [{"id": "cluster1.net6", "swarm": "cluster1", "spawner": "remote"}, {"id": "cluster2.net6", "swarm": "cluster2", "spawner": "remote"},
      {"id": "cluster1.net7", "swarm": "cluster1", "spawner": "remote"}],
     [{"id": "net0", "spawner": "process"}],
+    # remote slots of the default swarm (nets = net1 net2, slots = remote.com/1 remote.com/2): swarm id "localhost", spawner remote
+    [{"id": "net1", "spawner": "remote"}, {"id": "net2", "spawner": "remote"}],
+    [{"id": "net1", "spawner": "remote"}, {"id": "net2", "spawner": "remote"}, {"id": "cluster1.net6", "swarm": "cluster1", "spawner": "remote"}],
 ]
 SCOPES = ["own swarm cluster shared"] * 5 + ["own shared", "own swarm shared", "own cluster shared", "own", "swarm cluster shared"]
 STATE_NAMES = ["install", "customize", "on_customize", "connect", "gui", "extra"]
@@ -51,7 +54,7 @@ def gen_spec(rng, flavour=None):
     """flavour: None | 'retry' | 'removable' | 'contention' | 'handover' | 'directed' biases the parameters"""
     if flavour == "directed":
         return gen_directed_handover(rng)
-    workers = rng.choice(WORKER_SETS if flavour not in ("contention", "handover") else WORKER_SETS[1:7])
+    workers = rng.choice(WORKER_SETS if flavour not in ("contention", "handover") else WORKER_SETS[1:7] + WORKER_SETS[8:])
     nvms = rng.choice([1, 1, 2, 2, 3]) if flavour != "handover" else 1
     vms = {f"vm{k + 1}": {} for k in range(nvms)}
     states = {}
